@@ -55,6 +55,56 @@ def asmFamily (fam : String) : Option (Parser String) :=
     let os ← ops; done
     let m := Mapped.fromOps os
     pure s!"{hexOfBytes m.bytecode} {showNats m.opIndices}"
+  | "gparse" => some do
+    -- `<Group>::try_from_bytes`: a byte that is not an opcode of the group is an invalid opcode and only that byte is consumed
+    let g ← tok
+    let bs ← bytes; done
+    match bs with
+    | [] => pure "none rest=0"
+    | b :: rest =>
+      let inGroup := match Spec.table.find? (fun r => r.1 == b) with
+        | some r => (r.2.1.splitOn ".").head! == g
+        | none => false
+      if !inGroup then pure s!"err InvalidOpcode:{b} rest={rest.length}" else
+      match tryFromBytes b rest with
+      | (.ok o, rest') =>
+        let parts := o.name.splitOn "."
+        let inner := match o.imm with | some w => s!"{parts.getLast!}({w})" | none => parts.getLast!
+        pure s!"ok {inner} opcode={b} bytes={(encodeOp o).length} rest={rest'.length}"
+      | (.error (.invalidOpcode x), rest') => pure s!"err InvalidOpcode:{x} rest={rest'.length}"
+      | (.error .notEnoughBytes, rest') => pure s!"err NotEnoughBytes rest={rest'.length}"
+  | "gopcode" => some do
+    let g ← tok
+    let b ← nat; done
+    match Spec.table.find? (fun r => r.1 == b % 256) with
+    | some r =>
+      let parts := r.2.1.splitOn "."
+      if parts.head! == g then pure s!"ok {parts.getLast!}" else pure s!"err InvalidOpcode:{b % 256}"
+    | none => pure s!"err InvalidOpcode:{b % 256}"
+  | "mapseq" => some do
+    -- a history of operations on one `BytecodeMapped` (see harness fam_asm.rs)
+    let os0 ← ops
+    let n ← nat
+    let rec steps : Nat → List Spec.Op → List String → Parser (List String)
+      | 0, _, acc => pure acc
+      | k+1, os, acc => do
+        let t ← tok
+        match t with
+        | "p" => do let o ← op; steps k (os ++ [o]) (acc ++ ["p"])
+        | "g" => do
+          let ix ← nat
+          let r := match Mapped.op (Mapped.fromOps os) ix with
+            | .ok (some o) => showOp o | .ok none => "none" | _ => "panic"
+          steps k os (acc ++ [r])
+        | "a" => steps k os (acc ++ [match Mapped.ops (Mapped.fromOps os) with | .ok l => showOps l | _ => "panic"])
+        | "f" => do
+          let ix ← nat
+          steps k os (acc ++ [if ix ≤ os.length then showOps (os.drop ix) else "none"])
+        | "b" => steps k os (acc ++ [s!"{hexOfBytes (Mapped.fromOps os).bytecode} {showNats (Mapped.fromOps os).opIndices}"])
+        | _ => failure
+    let out ← steps n os0 []
+    done
+    pure (" | ".intercalate out)
   | "contains" => some do
     let e ← nat; let bs ← bytes; done
     pure (toString (bytesContainsAny e bs))
